@@ -5,6 +5,7 @@ go 1.23
 require (
 	github.com/ctessum/geom v0.0.0
 	github.com/jonas-p/go-shp v0.1.2-0.20190401125246-9fd306ae10a6
+	github.com/paulmach/osm v0.1.1
 	pgregory.net/rapid v1.3.0
 )
 
@@ -14,7 +15,6 @@ require (
 	github.com/gonum/floats v0.0.0-20181209220543-c233463c7e82 // indirect
 	github.com/gonum/internal v0.0.0-20181124074243-f884aa714029 // indirect
 	github.com/paulmach/orb v0.1.6 // indirect
-	github.com/paulmach/osm v0.1.1 // indirect
 	golang.org/x/exp v0.0.0-20191002040644-a1355ae1e2c3 // indirect
 	golang.org/x/sync v0.0.0-20200625203802-6e8e738ad208 // indirect
 	gonum.org/v1/gonum v0.9.3 // indirect
